@@ -22,6 +22,38 @@ pub struct SinkReq {
     pub chunk_sizes: Option<Vec<usize>>,
 }
 
+/// Versioned siblings exist for these kinds (api/sink.rs).
+const VKINDS: [&str; 3] = ["raw", "stream", "json"];
+
+fn versioned_limit(kind: &str, var: &str, default: usize) -> usize {
+    match (kind, var) {
+        ("raw", "v1") => MACRO_LIMIT,
+        ("raw", _) => default,
+        ("stream", "v1") => default,
+        ("stream", _) => MACRO_LIMIT,
+        ("json", "v1") => MACRO_LIMIT,
+        _ => crate::api::sink::V_LIMIT_SMALL,
+    }
+}
+
+/// (kind, var, limit) for one request; `versioned`: the server has the
+/// versioned siblings and every request must name a version.
+fn pick_endpoint(r: &mut Rng, versioned: bool, default: usize, rt: Option<usize>) -> (&'static str, &'static str, usize, Option<&'static str>) {
+    if versioned && r.chance(1, 2) {
+        let kind = *r.pick(&VKINDS);
+        let (var, ver) = if r.chance(1, 2) {
+            ("v1", *r.pick(&["0.0.1", "1.0.0", "1.9.9"]))
+        } else {
+            ("v2", *r.pick(&["2.0.0", "2.0.1", "3.1.4"]))
+        };
+        return (kind, var, versioned_limit(kind, var, default), Some(ver));
+    }
+    let kind = *r.pick(&KINDS);
+    let var = *r.pick(&VARS);
+    let ver = if versioned { Some(*r.pick(&["0.0.1", "1.0.0", "2.0.0", "7.7.7"])) } else { None };
+    (kind, var, effective_limit(var, default, rt), ver)
+}
+
 fn effective_limit(var: &str, default: usize, rt: Option<usize>) -> usize {
     match var {
         "m" => MACRO_LIMIT,
@@ -91,6 +123,7 @@ pub fn make_req(
     len: usize,
     limit: usize,
     chunked: Option<Vec<usize>>,
+    version: Option<&str>,
 ) -> SinkReq {
     let (body, digest, plen, inv, ct) = make_body(r, kind, nonce, len);
     let mut headers = vec![
@@ -98,6 +131,9 @@ pub fn make_req(
         hdr("x-sim", &format!("{};0;0;0;0", nonce)),
         hdr("content-type", &ct),
     ];
+    if let Some(ver) = version {
+        headers.push(hdr("x-api-version", ver));
+    }
     // Both framing headers at once, Content-Length first: a server may
     // reject the request or go by Transfer-Encoding alone (RFC 9112 6.1),
     // hyper does the latter and leaves the Content-Length header in place.
@@ -111,7 +147,7 @@ pub fn make_req(
         Some(s) => BodyFraming::Chunked { sizes: s.clone(), ext: nonce % 3 == 0, trailer: nonce % 5 == 0 },
         None => BodyFraming::Length,
     };
-    let target = format!("/sink/{kind}/{var}");
+    let target = format!("/sink/{kind}/{}", if var.starts_with('v') { "v" } else { var });
     let bytes = build_request("PUT", &target, &headers, &body, &fr);
     let head_len = bytes.windows(4).position(|w| w == b"\r\n\r\n").unwrap() + 4;
     // actual chunk layout produced by build_request
@@ -193,6 +229,9 @@ pub fn gen_random(seed: u64, idx: u64) -> Plan {
         _ => Some(default * 2 + 7),
     };
     let mode = if r.chance(1, 2) { Mode::Cancel } else { Mode::Detached };
+    // one run in four: a versioned API in which one path is served by two
+    // endpoints with different limits
+    let versioned = r.chance(1, 4);
     let nconns = r.usize_in(1, 3);
     let mut nonce = 1;
     let mut conns = Vec::new();
@@ -208,18 +247,20 @@ pub fn gen_random(seed: u64, idx: u64) -> Plan {
             c.kind = ConnKind::H2;
             let n = r.usize_in(1, 4);
             for j in 0..n {
-                let kind = *r.pick(&KINDS);
-                let var = *r.pick(&VARS);
-                let lim = effective_limit(var, default, rt);
+                let (kind, var, lim, ver) = pick_endpoint(&mut r, versioned, default, rt);
                 let len = pick_len(&mut r, lim);
-                let sr = make_req(&mut r, nonce, kind, var, len, lim, None);
+                let sr = make_req(&mut r, nonce, kind, var, len, lim, None, ver);
+                let mut headers = vec![
+                    ("x-sim".to_string(), Blob(format!("{};0;0;0;0", nonce).into_bytes())),
+                    ("content-type".to_string(), Blob(sr.ctype.clone().into_bytes())),
+                ];
+                if let Some(ver) = ver {
+                    headers.push(("x-api-version".to_string(), Blob(ver.as_bytes().to_vec())));
+                }
                 c.h2.push(H2Req {
                     method: "PUT".into(),
                     target: sr.target.clone(),
-                    headers: vec![
-                        ("x-sim".into(), Blob(format!("{};0;0;0;0", nonce).into_bytes())),
-                        ("content-type".into(), Blob(sr.ctype.clone().into_bytes())),
-                    ],
+                    headers,
                     body: Blob(sr.body.clone()),
                     delay_ms: r.range(0, 20),
                     req: j,
@@ -235,12 +276,10 @@ pub fn gen_random(seed: u64, idx: u64) -> Plan {
         let pipelined = nreq > 1 && r.chance(1, 3);
         let fault_at = if r.chance(1, 6) { Some(r.usize_in(0, nreq - 1)) } else { None };
         for j in 0..nreq {
-            let kind = *r.pick(&KINDS);
-            let var = *r.pick(&VARS);
-            let lim = effective_limit(var, default, rt);
+            let (kind, var, lim, ver) = pick_endpoint(&mut r, versioned, default, rt);
             let len = pick_len(&mut r, lim);
             let chunks = gen_chunks(&mut r, len, lim);
-            let sr = make_req(&mut r, nonce, kind, var, len, lim, chunks);
+            let sr = make_req(&mut r, nonce, kind, var, len, lim, chunks, ver);
             nonce += 1;
             let body_len = sr.bytes.len() - sr.head_len;
             if fault_at == Some(j) && body_len > 0 {
@@ -282,7 +321,7 @@ pub fn gen_random(seed: u64, idx: u64) -> Plan {
     Plan {
         property: "C11".into(),
         seed: mix(seed, idx),
-        server: ServerPlan { mode, body_limit: default, api: ApiKind::Sink, rt_override: rt, tls: false },
+        server: ServerPlan { mode, body_limit: default, api: if versioned { ApiKind::SinkVersioned } else { ApiKind::Sink }, rt_override: rt, tls: false },
         conns,
         shutdown: None,
         accept_errs: vec![],
@@ -377,7 +416,7 @@ impl Scenario for C11 {
                 2 => Some(vec![lim.max(1)]),
                 _ => Some(vec![lim.saturating_sub(1).max(1), 1, 1]),
             };
-            let sr = make_req(&mut r, 1, kind, var, len, lim, chunks);
+            let sr = make_req(&mut r, 1, kind, var, len, lim, chunks, None);
             let mut c = blank_conn(5000);
             c.c2s = c2s.clone();
             c.steps.push(Step::Send { data: Blob(sr.bytes), completes: Some(0) });
